@@ -174,7 +174,8 @@ def run_world(ops, wc, keep=False):
                         first_bad = i
                 m = it.env.get('m')
                 forms = {}
-                for nm, primal in (('primal', True), ('dual', False)):
+                order = (('dual', False), ('primal', True)) if wc.get('dual_first') else (('primal', True), ('dual', False))
+                for nm, primal in order:
                     try:
                         fobj = m.do_math(primal=primal)
                         forms[nm] = form_digest(fobj)
@@ -291,6 +292,8 @@ def gen_case(seed, cfg):
          'epoch': 2.2e9, 'gc': rng.choice(['off', 'collect'])},
         {'name': 'W4', 'where': 'here', 'layout': rng.choice(layouts), 'rng_seed': 3, 'epoch': 1.7e9, 'numeric': True},
         {'name': 'W5', 'where': 'here', 'layout': 'readonly', 'rng_seed': 3, 'epoch': 1.7e9, 'numeric': True},
+        # same declaration, but the dual is formulated before the primal
+        {'name': 'W6', 'where': 'here', 'layout': 'C', 'rng_seed': 0, 'epoch': 1.7e9, 'dual_first': True},
     ]
     # repetition sequence (iv)
     from machines.hist import FAULTS_BY_ENGINE
@@ -376,6 +379,10 @@ def check_case(case, props):
                          % (fk, wc.get('layout'), why), tag)
                     break
                 continue
+            if wc.get('dual_first'):
+                viol('form-depends-on-formulation-order', '%s standard form differs between "primal then dual" and "dual then primal" '
+                     'on two builds of the same declaration' % fk, tag)
+                break
             viol('form-differs', '%s standard form differs bit-wise between W0 and %s (hashseed %s, thread %s, gc %s, rng %s)'
                  % (fk, nm, wc.get('hashseed', 0), wc.get('thread', False), wc.get('gc'), wc.get('rng_seed')), tag)
             break
